@@ -191,6 +191,8 @@ where
         global_max_depth: &AtomicUsize,
         symmetry: Option<fn(&M::State) -> M::State>,
     ) {
+        #[cfg(getong_stateright_verif)]
+        let mut max_count = crate::verif::block_limit().unwrap_or(max_count);
         let properties = model.properties();
 
         let mut current_max_depth = global_max_depth.load(Ordering::Relaxed);
